@@ -224,7 +224,7 @@ kf("C11", "C11-forward-call-inside-bitcast", "a call inside `bitcast<T>(...)` is
 kf("C07", "C07-inner-struct-align-attribute", "the alignment of a struct whose member carries @align(n) is not propagated to the enclosing struct/array: `struct I0 { @align(16) m0: u32 } struct S0 { m0: u32, m1: I0, m2: u32 }` places m1 at offset 4 (span 24) where WGSL has offset 16 (size 48); wrong in the IR, in SPIR-V Offset decorations and in every backend's addressing",
    ["C07|ir-layout|*|F3/struct/{u32,I0{*@align(*)},u32}", "C07|spirv-decorations|*|F3/struct/{u32,I0{*@align(*)},u32}", "C07|spirv|F3/struct/{u32,I0{*@align(*)},u32}|*|mismatch",
     "C07|msl|F3/struct/{u32,I0{*@align(*)},u32}|*|mismatch", "C07|hlsl|F3/struct/{u32,I0{*@align(*)},u32}|*|mismatch", "C07|glsl|F3/struct/{u32,I0{*@align(*)},u32}|*|mismatch", "C07|glsl|F3/array2/I0{*@align(*)}|*|mismatch",
-    "C07|ir-layout|*|F3x/X5/*IX{*@align(*"])
+    "C07|ir-layout|*|F3x/X5/*IX{*@align(*", "C07|ir-layout|*|F3x/XO/*IX{*@align(*"])
 kf("C07", "C07-glsl-align-size-ignored", "the GLSL backend ignores @align and @size: members are declared back to back in std430/std140 blocks, so every following member is addressed at the wrong offset",
    ["C07|glsl|F3/struct/*@align(*|*|mismatch", "C07|glsl|F3/struct/*@size(*|*|mismatch", "C07|glsl|F3/struct/*@align(*|*|trap:oob-read", "C07|glsl|F3/struct/*@size(*|*|trap:oob-read",
     "C07|glsl-layout|*|*|F3x/*/attr*"])
@@ -238,7 +238,8 @@ kf("C07", "C07-attr-hex-literal-ignored", "@align / @size whose argument is a he
    ["C07|ir-layout|*|F3x/XS/*:hex)*", "C07|ir-layout|*|F3x/XS/*:hex-u)*", "C07|ir-layout|*|F3x/XS/*:hex-upper)*"])
 kf("C07", "C07-attr-const-expression-ignored", "@align / @size whose argument is any const-expression other than a single decimal literal (`4 * 4`, `15 + 1`, `8 << 1u`, `u32(16)`, a module-scope `const` declared before or after the struct, typed or not, or an expression over one) is silently ignored: `const K = 16; struct S { a: f32, @align(K) b: f32 }` places b at offset 4 where WGSL has 16; wrong in the IR, inherited by every backend",
    ["C07|ir-layout|*|F3x/XS/*:mul)*", "C07|ir-layout|*|F3x/XS/*:add)*", "C07|ir-layout|*|F3x/XS/*:shift)*", "C07|ir-layout|*|F3x/XS/*:conv)*", "C07|ir-layout|*|F3x/XS/*:const)*",
-    "C07|ir-layout|*|F3x/XS/*:const-after)*", "C07|ir-layout|*|F3x/XS/*:const-u32)*", "C07|ir-layout|*|F3x/XS/*:const-i32)*", "C07|ir-layout|*|F3x/XS/*:const-expr)*"])
+    "C07|ir-layout|*|F3x/XS/*:const-after)*", "C07|ir-layout|*|F3x/XS/*:const-u32)*", "C07|ir-layout|*|F3x/XS/*:const-i32)*", "C07|ir-layout|*|F3x/XS/*:const-expr)*",
+    "C07|ir-layout|*|F3x/XO/*:const)*", "C07|ir-layout|*|F3x/XO/*:const-after)*", "C07|ir-layout|*|F3x/XO/*:const-expr)*"])
 kf("C07", "C07-hlsl-missing-constructor-helper", "loading an array of structs (or array of arrays/matrices) from a storage buffer calls ConstructI0_/Constructarray2_* helper functions that are never emitted",
    ["C07|hlsl|F3/*|*|malformed-output:call of undeclared function \"Construct*"])
 kf("C07", "C07-hlsl-uniform-matCx2-in-nested-struct", "a matCx2 member of a struct nested in a uniform struct is read through GetMat<m>On<Struct> helpers that are never emitted; arrays of matCx2 in uniform space index a split matrix value",
